@@ -2,7 +2,7 @@
 (* Validates observations of a REAL server (driver harness/store/src/c03.rs).
    History lines (C03):
      {"a":"reset","h":n,"res":"ok","st":S}      {"a":"op","op":{..},"res":class,"st":S}
-     S = {"ents":[Entry], "meta":[[attr,type]], "idx":{"type:attr":{"present":0|1,"rows":{key:[ids]}}},
+     S = {"ents":[Entry = {id,uuid,e,live,a,c,syn,k}], "meta":[[attr,type]], "idx":{"type:attr":{"present":0|1,"rows":{key:[ids]}}},
           "cached":{"type:attr":{key:[ids]}}, "n2u":{key:uuid|"-"}, "x2u":.., "u2s":.., "u2r":.., "resolve":.., "verify":[..]}
    Backup lines (C13):
      {"a":"bak","gz":0|1,"res":class,"orig":DB,"rest":DB}     DB = {"ents":{uuid:digest},"ids":{..},"ruv":[..],
@@ -35,9 +35,13 @@ JudgeState(st, ln) ==
   /\ ((\A u \in DOMAIN st.u2r : st.u2r[u] \in U2R(Ents(st), u)) \/ PrintT(<<"L1FAIL", "C03", ln, "lookup uuid2rdn">>))
   /\ (ResolveAgrees(Ents(st), st.resolve) \/ PrintT(<<"L1FAIL", "C03", ln, "resolve name_to_uuid">>))
 
-\* L2: tables follow from the previous tables by the entry diff (or by recomputation on reindex)
+\* L2: the entries' keys are what the transcription of the key functions says, and
+\* tables follow from the previous tables by the entry diff (or by recomputation on reindex)
+L2Keys(st) == \A e \in Ents(st) : \A i \in DOMAIN st.meta :
+                 Keys(e, st.meta[i][1], st.meta[i][2]) = KeysL2(e, st.meta[i][1], st.meta[i][2])
 L2State(prev, st, op) ==
-  \A i \in DOMAIN st.meta : LET m == st.meta[i]  k == TKey(m) IN
+  /\ L2Keys(st)
+  /\ \A i \in DOMAIN st.meta : LET m == st.meta[i]  k == TKey(m) IN
      (k \in DOMAIN st.idx /\ k \in DOMAIN prev.idx) =>
         ObsTable(st.idx[k]) = (IF op = "reindex" THEN Table(Ents(st), m[1], m[2])
                                ELSE DiffApply(ObsTable(prev.idx[k]), Ents(prev), Ents(st), m[1], m[2]))
